@@ -42,8 +42,18 @@ ObsIndex(v) == 1 + ((v[1] * 8 + v[2]) * 64 + v[3]) * 8 + v[4]
 ObsPixels(v) == LET r == Obs[ObsIndex(v)] IN {r[5][i][1] + W * r[5][i][2] : i \in 1..Len(r[5])}
 ObsWellFormed == Len(Obs) = 8192 /\ \A v \in Bits : LET r == Obs[ObsIndex(v)] IN <<r[1], r[2], r[3], r[4]>> = v
 
+\* ---- one chip switched off (ONLY_CHIP = "0" | "1" names the chip that stays on; TRACE_FILE2 = the same implementation's map
+\* with both chips on): a pixel is determined by a VRAM bit OF ITS OWN CHIP, so what the chip that is on shows does not depend
+\* on the other chip's on/off state
+Both == IF "TRACE_FILE2" \in DOMAIN IOEnv THEN ndJsonDeserialize(IOEnv.TRACE_FILE2) ELSE <<>>
+BothPixels(v) == LET r == Both[ObsIndex(v)] IN {r[5][i][1] + W * r[5][i][2] : i \in 1..Len(r[5])}
+OnChip == IF "ONLY_CHIP" \in DOMAIN IOEnv THEN (IF IOEnv.ONLY_CHIP = "0" THEN 0 ELSE 1) ELSE -1
+OwnChipOnly == {v \in Bits : v[1] = OnChip /\ ObsPixels(v) # BothPixels(v)}
+
 Verdict ==
   IF Obs = <<>> THEN <<"PIXELMAP", "reference-only">>
+  ELSE IF OnChip >= 0 THEN (IF ~ObsWellFormed \/ Len(Both) # 8192 THEN <<"PIXELMAP", "malformed">>
+                            ELSE <<"PIXELMAP", IF OwnChipOnly = {} THEN "ok" ELSE "OwnChipOnly", "ok", OwnChipOnly>>)
   ELSE IF ~ObsWellFormed THEN <<"PIXELMAP", "malformed">>
   ELSE <<"PIXELMAP",
          IF EveryPixelExactlyOneBit(ObsPixels) THEN "ok" ELSE "EveryPixelExactlyOneBit",
